@@ -186,7 +186,9 @@ PLANS["C03"] = {
            mcrec("graph", {"quick": 5, "thorough": 6}, False, ports({"chars": 1, "chars1": 3, "bytes": 4}, {"chars": 1, "chars1": 2, "bytes": 3})),
            mcrec("directed", 1, True, ports({"chars": 1, "chars1": 2, "bytes": 2}, {"chars": 1, "chars1": 1, "bytes": 1, "bytes1": 1})),
            mcrec("directed", 1, False, ports({"chars": 1}, {"chars": 1, "bytes": 1})),
-           mcrec("osc", 1, True, ports({"chars": 2}, {"chars": 1, "bytes": 1}))],
+           mcrec("osc", 1, True, ports({"chars": 2}, {"chars": 1, "bytes": 1})),
+           mcrec("pairs", 1, True, ports({"chars": 1, "chars1": 2, "bytes": 3}, {"chars": 1, "chars1": 1, "bytes": 1, "bytes1": 2})),
+           mcrec("pairs", 1, False, ports({"chars": 1}, {"chars": 1, "chars1": 2, "bytes": 2}))],
     "gen": [gen("recsoup", 600, 20000, chars=60), gen("recsoup", 200, 6000, chars=200), walk("", 100, 3000, port="chars"),
             walk("", 60, 2000, port="chars", utf8=0)],
     "rule": "random strings over one representative of every character class of the grammar (every C0 control, ESC, C1 CSI/OSC/ST, digits, "
